@@ -119,11 +119,25 @@ TResp ==
   /\ (IF out'.ev = "lookupend" THEN out'.res = E.res ELSE out'.ev = "resp" /\ (out'.res = E.res \/ out'.res = "stray")) /\ (out'.ver = E.ver \/ out'.res = "stray")
   /\ Owes /\ Adv
 
+\* The document is the store's state at the moment the store takes it, which lies between the step that owes the write
+\* and the write itself; only handle calls happen in between (nothing else moves while a write is owed), and they move
+\* access stamps forward: names and versions are those of the owing step, every stamp lies between the one the owing
+\* step saw and the present one.  What was written is what the cache holds from now on.
 TCacheW ==
   /\ Line("cachew") /\ owed # Nil
   /\ E.ok = owed.ok
-  /\ (owed.ok => DocOf(E.doc) = owed.doc)
-  /\ owed' = Nil /\ Adv /\ UNCHANGED <<svars, rets>>
+  /\ IF owed.ok
+     THEN LET d == DocOf(E.doc)
+              hi == S!Proj(m)
+          IN  /\ \A n \in NameSet :
+                   /\ (d[n] = Nil) = (owed.doc[n] = Nil)
+                   /\ d[n] # Nil => /\ d[n].ver = owed.doc[n].ver
+                                    /\ d[n].la >= owed.doc[n].la
+                                    /\ d[n].la <= (IF hi[n] # Nil /\ hi[n].la > owed.doc[n].la THEN hi[n].la ELSE owed.doc[n].la)
+              /\ cache' = [cache EXCEPT !.doc = d]
+     ELSE UNCHANGED cache
+  /\ owed' = Nil /\ Adv
+  /\ UNCHANGED <<cfg, svc, m, handles, phase, closed, ini, poll, lk, rq, call, now, hist, out, rets>>
 
 \* a cache write nobody owes: allowed at any moment, as one complete document of the store's state at that moment
 TCacheWExtra ==
